@@ -671,8 +671,7 @@ def to_matched_score(
     snote_ids = []
     for i in sort_order:
         sn, n = note_pairs[int(i)]
-        sn_on, sn_off = [sn["onset_beat"], sn["onset_beat"] + sn["duration_beat"]]
-        sn_dur = sn_off - sn_on
+        sn_on, sn_dur = sn["onset_beat"], sn["duration_beat"]
         # hack for notes with negative durations
         n_dur = max(n["duration_sec"], 60 / 200 * 0.25)
         pair_info = (sn_on, sn_dur, sn["pitch"], n["onset_sec"], n_dur, n["velocity"])
